@@ -288,7 +288,7 @@ def _replay_split_two(args: dict) -> str | None:
     return _judge_six({1: (va, ea), 4: (vb, eb)})
 
 
-@cond(q=40, t=300, encoded=[mt._split_respecting_quotes], bound="Subject values = any %d / %d code points" % (_N1B, _N1B - 1),
+@cond(q=40, t=1000, encoded=[mt._split_respecting_quotes], bound="Subject values = any %d / %d code points" % (_N1B, _N1B - 1),
       replay=_replay_split_two, signature=lambda args, conc: "C43:split:quoted-value-splits-or-merges")
 def split_stage_both_subjects_hostile(na: int, a0: int, a1: int, a2: int, nb: int, b0: int, b1: int, b2: int) -> bool:
     """
@@ -353,7 +353,7 @@ def extract_subject_value_exact(n: int, i0: int, i1: int, i2: int) -> bool:
     return _extract_ok("Subject", v, e)
 
 
-@cond(q=60, t=400, encoded=[mt._parse_xfcc, mt._unescape_quoted], bound="key in Hash/DNS/URI/By, value = any %d code points ('%%' as %%25 for URI/By)" % _N2U,
+@cond(q=60, t=1500, encoded=[mt._parse_xfcc, mt._unescape_quoted], bound="key in Hash/DNS/URI/By, value = any %d code points ('%%' as %%25 for URI/By)" % _N2U,
       replay=_replay_extract, signature=lambda args, conc: "C43:extract:value-not-preserved")
 def extract_other_keys_value_exact(key: int, n: int, i0: int, i1: int) -> bool:
     """
